@@ -1,9 +1,9 @@
 #![no_main]
 #![allow(dead_code)]
 use libfuzzer_sys::fuzz_target;
-#[path = "../../harness/vp-checks/src/bin/c01.rs"]
-mod c01;
+#[path = "../../vp-checks/src/bin/c09.rs"]
+mod c09;
 mod common;
 fuzz_target!(|data: &[u8]| {
-    common::run("C01", data, c01::sub_pipelines);
+    common::run("C09", data, &[c09::sub_arraydata]);
 });
